@@ -49,6 +49,17 @@ def program_for(rng, tag):
         extra.append("(define total '%s-lower)" % tag)
         extra.append("(define (Scale x) (list x Total total))")
         probes = probes + ["Total", "total", "(Scale 3)", "(list 'Abc 'abc 'ABC)", "(eqv? 'Total 'total)"]
+    if rng.random() < 0.5:
+        # forms that PRINT alike and are different data (a string or a character where the other instance has an identifier
+        # or a number), at the same position of their texts: what one instance has expanded is nothing to the other
+        twins = [('(let ((v "k")) v)', "(let ((v k)) v)"), ("(case #\\x ((#\\x) 'matched) (else 'other))", "(case x ((x) 'matched) (else 'other))"),
+                 ('(cond ((eqv? n "1") \'one) (else \'other))', "(cond ((eqv? n 1) 'one) (else 'other))"), ('(and "k" 1)', "(and k 1)"),
+                 ('(when "x" x)', "(when x x)"), ('(or #f "k")', "(or #f k)"), ('(let* ((a "1") (b a)) (list a b))', "(let* ((a 1) (b a)) (list a b))"),
+                 ('(begin "n" n)', "(begin n n)"), ("(unless #f #\\k)", "(unless #f k)")]
+        extra = ["(define k '%s-k)" % tag, "(define x 'y)", "(define n 1)"] + extra
+        for a, b in rng.sample(twins, rng.randint(2, 5)):
+            extra.insert(rng.randint(3, len(extra)), a if rng.random() < 0.5 else b)
+        probes = probes + [rng.choice(t) for t in twins[:4]]
     out = []
     # imports belong to the beginning of a program
     if rng.random() < 0.8:
@@ -159,7 +170,7 @@ def explore(ctx):
         "disagreements": ndis,
         "pairs_with_interference": leaks,
         "rule": "random program pairs A and B (core and derived forms with names drawn from a small shared pool, definitions, "
-                "assignments, vector mutation, failing forms, reader directives and notations this reader does not know (#!fold-case, #;, #| |#, #u8, labels) with identifiers that differ only in case, imports with prefixes, redefinition of car, and a library named "
+                "assignments, vector mutation, failing forms, reader directives and notations this reader does not know (#!fold-case, #;, #| |#, #u8, labels) with identifiers that differ only in case, forms that print alike and are different data (string / character vs identifier / number), imports with prefixes, redefinition of car, and a library named "
                 "(colliding) registered with a different source in each instance and mutated through its exports; in half of the pairs each "
                 "instance first runs a program file from a directory of its own, with a library file (flib) present in one, both "
                 "(different contents) or neither directory, imported again later), B's forms "
